@@ -157,7 +157,12 @@ def gen_query(rng, ms, single_metric_model=True):
     dims = [f"{a}.{b}" for a, b in rng.sample(dims_pool, min(len(dims_pool), rng.choice([0, 1, 1, 2])))]
     for m in ms:
         if any(d["type"] == "time" for d in m["dims"]) and rng.random() < 0.6:
-            dims.append(f"{m['name']}.created" + rng.choice(["__month", "__year", "__day", ""]))
+            if rng.random() < 0.3:
+                # the same time dimension at two granularities (either order)
+                two = rng.sample(["__day", "__month", "__year"], 2)
+                dims += [f"{m['name']}.created{g}" for g in two]
+            else:
+                dims.append(f"{m['name']}.created" + rng.choice(["__month", "__year", "__day", ""]))
     mm = rng.choice([m for m in ms if len(m["measures"]) > 1] or ms)
     metrics = [f"{mm['name']}.{x['name']}" for x in rng.sample(mm["measures"], rng.choice([1, 2, 3]) if len(mm["measures"]) >= 3 else 1)]
     if not single_metric_model and len(ms) > 1:
